@@ -1,0 +1,75 @@
+//go:build verif
+
+package merkleblock
+
+// Contracts for the deductive verifier in /verif (comment-only; build tag verif).
+
+//@ func merkleblock.(*PartialBlock).calcTreeWidth
+//@   ensures result == (m.numTx + (u32(1) << height) - 1) >> height
+//@   ensures height >= 32 ==> result == 0
+//@   modifies nothing
+
+//@ func merkleblock.(*PartialBlock).traverseAndExtract
+//@   requires len(m.bits) < 4294967288 && len(m.finalHashes) < 4294967296 && len(m.matchedHashes) == len(m.matchedItems)
+//@   requires forall k :: 0 <= k && k < len(m.finalHashes) ==> m.finalHashes[k] != nil
+//@   requires disjoint(m.matchedHashes, m.finalHashes)
+//@   modifies m.bitsUsed, m.hashesUsed, m.bad, m.matchedHashes, m.matchedItems, *m.matchedHashes, *m.matchedItems
+//@   ensures result != nil
+//@   ensures disjoint(m.matchedHashes, m.finalHashes)
+//@   ensures m.bitsUsed >= old(m.bitsUsed) && m.hashesUsed >= old(m.hashesUsed) && (old(m.bad) ==> m.bad)
+//@   ensures !m.bad ==> int(m.bitsUsed) <= len(m.bits) && int(m.hashesUsed) <= len(m.finalHashes)
+//@   ensures !m.bad ==> m.bitsUsed > old(m.bitsUsed) && m.hashesUsed > old(m.hashesUsed)
+//@   ensures len(m.matchedHashes) == len(m.matchedItems) && len(m.matchedItems) >= old(len(m.matchedItems))
+//@   ensures sameobj(m.matchedHashes, old(m.matchedHashes)) || fresh(m.matchedHashes)
+//@   ensures sameobj(m.matchedItems, old(m.matchedItems)) || fresh(m.matchedItems)
+//@   decreases int(height)
+
+//@ func merkleblock.(*PartialBlock).ExtractMatches
+//@   requires len(m.bits) < 4294967288 && len(m.finalHashes) < 4294967296 && len(m.matchedHashes) == len(m.matchedItems)
+//@   requires forall k :: 0 <= k && k < len(m.finalHashes) ==> m.finalHashes[k] != nil
+//@   requires disjoint(m.matchedHashes, m.finalHashes)
+//@   modifies m.bitsUsed, m.hashesUsed, m.bad, m.matchedHashes, m.matchedItems, *m.matchedHashes, *m.matchedItems
+//@   ensures result != nil ==> m.numTx != 0 && m.numTx <= old(MaxTxnCount)
+//@   ensures result != nil ==> len(m.finalHashes) <= int(m.numTx) && len(m.bits) >= len(m.finalHashes)
+//@   ensures result != nil ==> !m.bad && int(m.hashesUsed) == len(m.finalHashes)
+//@   ensures result != nil ==> (m.bitsUsed + 7) / 8 == (u32(len(m.bits)) + 7) / 8
+//@   loop 1 invariant height <= 32 && m.numTx == old(m.numTx) && m.numTx != 0
+//@   loop 1 decreases 33 - int(height)
+
+//@ func merkleblock.NewMerkleBlockFromMsg
+//@   requires len(msg.Flags) < 536870912
+//@   ensures result != nil && fresh(result) && result.numTx == msg.Transactions && len(result.bits) == 8 * len(msg.Flags) && !result.bad && result.bitsUsed == 0 && result.hashesUsed == 0
+//@   ensures len(result.finalHashes) == len(msg.Hashes) && len(result.matchedHashes) == 0 && len(result.matchedItems) == 0
+//@   modifies nothing
+//@   loop 1 invariant int(i) <= len(bits) && len(bits) == 8 * len(msg.Flags)
+//@   loop 1 decreases len(bits) - int(i)
+
+//@ func merkleblock.(*MerkleBlock).calcTreeWidth
+//@   ensures result == (m.numTx + (u32(1) << height) - 1) >> height
+//@   modifies nothing
+
+//@ func merkleblock.(*MerkleBlock).calcHash
+//@   requires height <= 31 && m.numTx <= 1073741824 && len(m.allHashes) == int(m.numTx)
+//@   requires pos < (m.numTx + (u32(1) << height) - 1) >> height
+//@   requires forall k :: 0 <= k && k < len(m.allHashes) ==> m.allHashes[k] != nil
+//@   ensures result != nil
+//@   modifies nothing
+//@   decreases int(height)
+
+//@ func merkleblock.(*MerkleBlock).traverseAndBuild
+//@   requires height <= 31 && m.numTx <= 1073741824 && len(m.allHashes) == int(m.numTx) && len(m.matchedBits) == int(m.numTx)
+//@   requires pos < (m.numTx + (u32(1) << height) - 1) >> height
+//@   requires forall k :: 0 <= k && k < len(m.allHashes) ==> m.allHashes[k] != nil
+//@   requires disjoint(m.bits, m.matchedBits) && disjoint(m.finalHashes, m.allHashes)
+//@   ensures len(m.bits) > old(len(m.bits)) && len(m.finalHashes) >= old(len(m.finalHashes))
+//@   ensures forall k :: 0 <= k && k < old(len(m.bits)) ==> m.bits[k] == old(m.bits[k])
+//@   ensures (m.numTx <= (pos + 1) << height) ==> m.bits[old(len(m.bits))] == mb.any(m.matchedBits, int(pos << height), int(m.numTx))
+//@   ensures (m.numTx > (pos + 1) << height) ==> m.bits[old(len(m.bits))] == mb.any(m.matchedBits, int(pos << height), int((pos + 1) << height))
+//@   ensures (height == 0 || m.bits[old(len(m.bits))] == 0) ==> len(m.bits) == old(len(m.bits)) + 1 && len(m.finalHashes) == old(len(m.finalHashes)) + 1
+//@   ensures sameobj(m.bits, old(m.bits)) || fresh(m.bits)
+//@   ensures sameobj(m.finalHashes, old(m.finalHashes)) || fresh(m.finalHashes)
+//@   modifies m.bits, m.finalHashes, *m.bits, *m.finalHashes
+//@   decreases int(height)
+//@   loop 1 invariant i >= pos << height && i <= m.numTx && i <= (pos + 1) << height
+//@   loop 1 invariant isParent == mb.any(m.matchedBits, int(pos << height), int(i))
+//@   loop 1 decreases int(m.numTx) - int(i)
